@@ -154,7 +154,21 @@ def check(ctx):
         except Exception:
             continue
         eq = U.char_eq(ad.adapter_wildcards, ad.read_wildcards)
+        pickled = False
+        if not brute and rng.random() < 0.15:
+            # what a worker process gets under the spawn / forkserver start methods: the adapter (with its aligner) through pickle
+            import pickle
+            try:
+                ad = pickle.loads(pickle.dumps(ad))
+                pickled = True
+                dist["pickled adapters"] = dist.get("pickled adapters", 0) + 1
+            except Exception as e:
+                ctx.violation("adapter cannot be pickled", {"adapter": spec.to_json(), "why": "%s: %s" % (type(e).__name__, e)})
+                continue
         for read, planted in cases:
+            if not brute and rng.random() < 0.08:
+                # soft-masked reads: matching is case-insensitive under every wildcard setting
+                read = read.lower() if rng.random() < 0.5 else "".join(c.lower() if rng.random() < 0.3 else c for c in read)
             mt = ad.match_to(read)
             impl_out.append(U.match_tuple(mt))
             lines.append(U.model_line_matchto(ad, spec, read).replace("matchto ", "matchtopf ", 1))
@@ -181,7 +195,7 @@ def check(ctx):
             dist[key] = dist.get(key, 0) + 1
             if why:
                 ctx.violation("%s indels=%s: %s" % (spec.typ, ad.indels, why.split(" (")[0].split(" [")[0][:60]),
-                              {"adapter": spec.to_json(), "read": read, "observed": U.match_tuple(mt), "why": why,
+                              {"adapter": spec.to_json(), "read": read, "observed": U.match_tuple(mt), "why": why, "pickled": pickled,
                                "reproduce": "cd /verif && ./check replay <this file>"})
     # ---- anchored adapters given together are searched through the adapter index (the default at the command line): an
     # error-free copy of one of them at the anchored end, where no other adapter of the set occurs within its tolerance, is
@@ -248,6 +262,9 @@ def replay(doc):
         return 0
     spec = U.AdSpec.from_json(r["adapter"])
     ad = spec.build()
+    if r.get("pickled"):
+        import pickle
+        ad = pickle.loads(pickle.dumps(ad))
     eq = U.char_eq(ad.adapter_wildcards, ad.read_wildcards)
     read = r["read"]
     mt = ad.match_to(read)
